@@ -209,11 +209,12 @@ func instructionSplit(b []byte) (string, []byte, error) {
 		return "", nil, fmt.Errorf("zero-length argument")
 	}
 	bSz := len(b)
-	if bSz < int(sz) {
+	end := 1 + int(sz)
+	if bSz < end {
 		return "", nil, fmt.Errorf("corrupt instruction, len %v less than symbol length: %v", bSz, sz)
 	}
-	r := string(b[1 : 1+sz])
-	return r, b[1+sz:], nil
+	r := string(b[1:end])
+	return r, b[end:], nil
 }
 
 // split bytecode into head and b using opcode
